@@ -1092,6 +1092,70 @@ def r13_banded_scatter(idx, r):
         r.require(got == Poly.atom("len(indices)") + (hi - lo), "row-pointer", f, node=ip, msg=f"the CSR row pointer must advance by the band width: {got}")
 
 
+# ------------------------------------------------------------------------------------------------
+def r14_one_count_per_field(idx, r):
+    """A container field that is read/written in several sibling records of one stream class (the 2-D, 3-D and 4-D
+    geometry records of GEODST list the same mesh arrays) has ONE length: every site must size it with the same
+    header counts."""
+    by_field = {}
+    for m, f, c, par in _rw_sites(idx):
+        if not c.args or f.cls is None or call_attr(c) not in ("rwList", "rwMatrix", "rwDoubleMatrix", "rwIntMatrix"):
+            continue
+        a = propagate(c.args[0], _alias_env(f.node))
+        ch = dotted(a)
+        if not ch or not ch.startswith("self."):
+            continue
+        counts = tuple(norm(x) for x in (c.args[2:] if call_attr(c) == "rwList" else c.args[1:]))
+        by_field.setdefault((m.relpath, f.cls.name, ch), []).append((f, c, counts))
+    n = 0
+    for (rel, cls, ch), sites in sorted(by_field.items()):
+        if len({f.qualname for f, _, _ in sites}) < 2:
+            continue
+        n += 1
+        kinds = {cnt for _, _, cnt in sites}
+        key = f"{rel.rsplit('/', 1)[-1]}:{cls}:{ch}"
+        if len(kinds) == 1:
+            r.ok(key, sites[0][0], node=sites[0][1])
+        else:
+            f, c, cnt = sites[-1]
+            r.violate(key, f, f"`{ch}` is sized with {sorted(kinds)} in different records of {cls}: one of them reads/writes the wrong number of entries "
+                      f"(here `{norm(c)[:70]}`)", node=c)
+    if n < 3:
+        raise AnalysisError(f"only {n} fields shared between sibling records found")
+
+
+# ------------------------------------------------------------------------------------------------
+def r15_sibling_stream_classes(idx, r):
+    """(a) NHFLUX comes in four sibling stream classes (real/adjoint x nodal/VARIANT). The two VARIANT classes must read
+    into a VARIANT container (NHFLUX(variant=True)): inheriting the nodal default makes the file control record
+    be parsed with the wrong layout. (b) Character fields are padded on the RIGHT by both writers; the readers may strip
+    only that padding (rstrip) - leading blanks belong to the datum (DIF3D title words)."""
+    m = idx.module("armi.nuclearDataIO.cccc.nhflux")
+    if m is None:
+        raise AnchorMissing("armi.nuclearDataIO.cccc.nhflux")
+    var = [c for c in m.classes.values() if "Variant" in c.name and any("Stream" in b.name for b in c.mro() if b is not c)]
+    if len(var) < 2:
+        raise AnalysisError(f"{len(var)} VARIANT stream classes found in nhflux.py, expected NhfluxStreamVariant and NafluxStreamVariant")
+    for c in var:
+        g = c.resolve("_getDataContainer")
+        rets = [x.value for x in walk_local(g.node) if isinstance(x, ast.Return) and x.value is not None] if g is not None else []
+        ok = any(isinstance(v, ast.Call) and any(k.arg == "variant" and isinstance(k.value, ast.Constant) and k.value.value is True for k in v.keywords) for v in rets)
+        r.require(ok, f"{c.name}:variant-container", g or c, msg=f"{c.name} reads into `{norm(rets[0]) if rets else '?'}` (from {g.cls.name if g is not None and g.cls else '?'}): a VARIANT file is then parsed "
+                  "with the nodal layout (flags and counts of the file control record land in the wrong fields)")
+    for cname in ("BinaryRecordReader", "AsciiRecordReader"):
+        c = idx.cls(CCCC + "." + cname)
+        f = c.resolve("rwString")
+        strips = [x for x in iter_calls(f.node) if call_attr(x) in ("strip", "lstrip", "rstrip")]
+        r.require(bool(strips) and all(call_attr(x) == "rstrip" for x in strips), f"{cname}.rwString:only-trailing-padding-stripped", f, node=strips[0] if strips else f.node,
+                  msg="the reader strips leading blanks of a character field too; the writers pad on the right only, so a datum that starts with a blank (' U235', a DIF3D title word) "
+                      "reads back different and re-writing it does not reproduce the file")
+    for cname in ("BinaryRecordWriter", "AsciiRecordWriter"):
+        c = idx.cls(CCCC + "." + cname)
+        f = c.resolve("rwString")
+        txt = norm(f.node)
+        r.require("ljust" in txt or ":<" in txt, f"{cname}.rwString:pads-right", f, msg="character fields must be left-aligned / padded on the right")
+
+
 def run(idx, chk):
     chk.explanation = (
         "C09: static reader/writer agreement for CCCC records: struct formats, byte counters and ASCII field widths of "
@@ -1136,3 +1200,7 @@ def run(idx, chk):
                  necessary="the same code reads and writes: an argument that can only be evaluated once the data exists makes the file unreadable")
     chk.run_rule("R09.13", "banded scatter record: the reader's column indices and count per row equal the writer's reversed slice (exact algebra in g, JJ, JBAND)", lambda r: r13_banded_scatter(idx, r), floor=2,
                  necessary="reader and writer of one record are different branches here; they must address the same matrix entries")
+    chk.run_rule("R09.14", "a field listed in several sibling records of one stream is sized by the same header counts in each", lambda r: r14_one_count_per_field(idx, r), floor=3,
+                 necessary="reading back what was written for every geometry type: the sibling records differ only in dimension")
+    chk.run_rule("R09.15", "sibling stream classes: VARIANT streams read into VARIANT containers; character fields are padded right and only right-stripped", lambda r: r15_sibling_stream_classes(idx, r), floor=6,
+                 necessary="reading a file produced by the writer returns data equal to what was written, for every stream class and for strings with leading blanks")
